@@ -89,6 +89,10 @@ fn caps_sample(r: &mut Rng) -> Vec<Vec<u8>> {
     let ef = *r.pick(&[0x041du16, 0x041d, 0x0404, 0x0000, 0x0400, 0x0001, 0xfffe, 0xffff]);
     if !r.chance(1, 8) { v.push(refsrv::cap(1, &[1, 0, 3, 0, 0, 2, 0, 0, 0, 0, ef as u8, (ef >> 8) as u8, 0, 0, 0, 0, 0, 0, 1, 1])); }
     if r.chance(1, 2) { v.push(refsrv::cap(8, &[0, 0, 20, 0])); }
+    // the server's Bitmap capability set with a desktop size of its own (what the client transmits for a pointer
+    // position does not depend on it)
+    if r.chance(1, 2) { let (dw, dh) = *r.pick(&[(1024u16, 768u16), (800, 600), (0, 0), (1, 1), (65535, 65535), (640, 1200)]);
+        v.push(refsrv::cap(2, &refsrv::cat(&[&refsrv::le16(32), &[1, 0, 1, 0, 1, 0], &refsrv::le16(dw), &refsrv::le16(dh), &[0, 0, 1, 0, 1, 0, 0, 0, 1, 0, 0, 0]]))); }
     if r.chance(1, 2) { v.push(refsrv::cap(0x1d, &r.bytes(5))); }
     if r.chance(1, 3) { v.push(refsrv::cap(0x0f, &[1])); }
     if r.chance(1, 2) { v.push(refsrv::cap(0x14, &[0, 0, 0, 0])); }
@@ -104,7 +108,7 @@ fn caps_sample(r: &mut Rng) -> Vec<Vec<u8>> {
 impl<'a> Gen<'a> {
     pub fn rect(&mut self) -> Rect {
         let n = match self.r.below(5) { 0 => 0, 1 => 1, 2 => self.r.below(9), 3 => self.r.below(64), _ => 4 } as usize;
-        let flags = *self.r.pick(&[0u16, 1, 0x401, 0x400, 1, 0x401]);
+        let flags = *self.r.pick(&[0u16, 1, 0x401, 0x400, 1, 0x401, 0x0003, 0x0009, 0x0801, 0x8001, 0xfbff, 0xfffe, 0x0402]);
         let c = |r: &mut Rng| -> u16 { if r.chance(1, 6) { *r.pick(&[0u16, 1, 0x7fff, 0x8000, 0xffff]) } else { r.below(900) as u16 } };
         Rect { l: c(self.r), t: c(self.r), r: c(self.r), b: c(self.r), w: c(self.r), h: c(self.r), bpp: *self.r.pick(&[16u16, 32, 24, 8, 15, 0xffff]), flags, data: self.r.bytes(n) }
     }
@@ -131,7 +135,7 @@ impl<'a> Gen<'a> {
         }
     }
     pub fn input(&mut self) -> String {
-        let edge = |r: &mut Rng| -> u64 { if r.chance(1, 3) { *r.pick(&[0u64, 1, 255, 256, 0x7fff, 0x8000, 0xffff]) } else { r.below(65536) } };
+        let edge = |r: &mut Rng| -> u64 { if r.chance(1, 3) { *r.pick(&[0u64, 1, 255, 256, 0x7fff, 0x8000, 0xffff, 0xe0, 0xe1, 0xe000, 0xe0e0, 0x2a, 0x1d]) } else { r.below(65536) } };
         if self.r.chance(1, 2) { format!("P{}:{}:{}:{}", edge(self.r), edge(self.r), self.r.below(4), self.r.below(2)) } else { format!("K{}:{}", edge(self.r), self.r.below(2)) }
     }
 }
@@ -263,6 +267,16 @@ pub fn generate_c11(thorough: bool, seed: u64, part: (usize, usize), em: &mut Em
         for k in &[1u32, 3, 7, 30, 0] { ops.push(format!("S{}", k)); hist.push("CH".into()); ops.push("P7:9:1:1".into()); hist.push("I".into()); ops.push("K31:0".into()); hist.push("I".into()); ops.push("TP1:2:0:0".into()); hist.push("J".into()); }
         ops.push("B".into()); hist.push("X".into()); ops.push("TB".into()); hist.push("X".into());
         emit(em, 1004, 800, 600, 0x409, "rdp-rs", &ops, Some(&hist));
+        // every scancode 0..=255 (and a few above) pressed and released, each followed by an ordinary key: one PDU
+        // per submission with exactly the submitted code and flags, whatever was submitted before — also across
+        // pointer traffic and a re-activation
+        let (mut ops, mut hist) = (vec![], vec![]);
+        { let mut g = Gen { r: &mut r, share: 0x000103ea }; activate(&mut g, &mut ops, &mut hist);
+          for c in (0u32..256).chain([0x100u32, 0x1e0, 0xe01d, 0xe0e0, 0xffff].iter().cloned()) { ops.push(format!("K{}:{}", c, c & 1)); hist.push("I".into()); ops.push(format!("K30:{}", (c >> 1) & 1)); hist.push("I".into()); }
+          ops.push("K224:1".into()); hist.push("I".into()); ops.push("P5:6:0:0".into()); hist.push("I".into());
+          for l in &[8u64, 0, 1, 2, 3, 5] { let (o, h) = g.letter(*l); ops.push(o); hist.push(h); }
+          ops.push("K31:1".into()); hist.push("I".into()); ops.push("K224:0".into()); hist.push("I".into()); ops.push("K31:0".into()); hist.push("I".into()); }
+        emit(em, 1004, 800, 600, 0x409, "rdp-rs", &ops, Some(&hist));
     }
     let n = if thorough { 20000 } else { 1500 };
     for _ in 0..n {
@@ -315,6 +329,25 @@ pub fn generate_c10(thorough: bool, seed: u64, _part: (usize, usize), em: &mut E
             ops.push(format!("F{}:{}", g.r.below(4), hex(&payload))); hist0.push("FP".into());
             if g.r.chance(1, 6) { let wl = *g.r.pick(&[6u64, 7, 8, 0, 1, 2, 3, 5]); let (o, h) = g.letter(wl); ops.push(o); hist0.push(h); }
         }
+        emit(em, 1004, 800, 600, 0x409, "rdp-rs", &ops, Some(&hist0));
+    }
+    // long runs of updates the client does not interpret (pointer position, orders, palette, surface commands,
+    // unknown codes), in one PDU and spread over many, then bitmap rectangles behind one more of them: delivered all the same
+    for &(per_pdu, npdu) in &[(17usize, 1usize), (40, 1), (1, 17), (1, 40), (3, 12), (100, 2)] {
+        let mut g = Gen { r: &mut r, share: 0x000103ea };
+        let mut ops = vec![]; let mut hist0 = vec![]; activate(&mut g, &mut ops, &mut hist0);
+        let codes = [0u8, 2, 4, 6, 8, 0xa, 0xb, 7, 0xd, 0xe];
+        let mut k = 0usize;
+        for _ in 0..npdu {
+            let mut payload = vec![];
+            for _ in 0..per_pdu { payload.extend(refsrv::fp_update(codes[k % codes.len()], &[k as u8, 0, 1, 0])); k += 1; }
+            ops.push(format!("F0:{}", hex(&payload))); hist0.push("FP".into());
+        }
+        let mut payload = refsrv::fp_update(8, &[1, 0, 2, 0]);
+        let rects: Vec<Rect> = (0..3).map(|i| Rect { l: i as u16, t: 1, r: i as u16, b: 1, w: 1, h: 1, bpp: 32, flags: 0, data: vec![i as u8; 4] }).collect();
+        payload.extend(refsrv::fp_bitmap_update(&rects));
+        ops.push(format!("F0:{}", hex(&payload))); hist0.push("FP".into());
+        ops.push(format!("F0:{}", hex(&refsrv::fp_bitmap_update(&rects[..1])))); hist0.push("FP".into());
         emit(em, 1004, 800, 600, 0x409, "rdp-rs", &ops, Some(&hist0));
     }
     // more than 128 (and more than 255) rectangles in one update, and that many updates in one PDU
@@ -453,6 +486,16 @@ pub fn generate_c06(thorough: bool, seed: u64, part: (usize, usize), em: &mut Em
         for ty in 0..=0x1fu16 { for body in &bodies { for pre in prefixes.iter() {
             idx += 1; if idx % part.1 != part.0 { continue; }
             run(em, &mut r, pre, vec![format!("R{}", hex(&refsrv::share_control(ty, 0x03ea, body)))]);
+        } } }
+    }
+    // d2. a demand-active whose numberCapabilities announces far more sets than it carries (the array is delimited by
+    //     lengthCombinedCapabilities): nothing may be reserved on the strength of that count; first activation and re-activation
+    if part.0 == 0 {
+        let caps = vec![refsrv::cap(1, &[1, 0, 3, 0, 0, 2, 0, 0, 0, 0, 0x1d, 4, 0, 0, 0, 0, 0, 0, 1, 1]), refsrv::cap(8, &[0, 0, 20, 0])];
+        for count in &[0xffffu16, 0x8000, 0x0100, 0] { for ncaps in &[0usize, 2] { for pre in [prefixes[0], &prefixes[6][..6]].iter() {
+            let mut da = refsrv::demand_active(0x103ea, b"RDP\0", &caps[..*ncaps]);
+            da[18] = *count as u8; da[19] = (*count >> 8) as u8;
+            run(em, &mut r, *pre, vec![format!("R{}", hex(&da))]);
         } } }
     }
     // e. the stream itself: short / degenerate TPKT and fast-path headers at the framing entry
